@@ -79,12 +79,12 @@ func init() {
 		"C15": {
 			explanation: "Ownership (structural, generated from SSA): every access to _cache.items/_cache.filter is in run, functions only called from it, or newCache on the fresh object; run is spawned by exactly one go statement. Atomicity: every request handler of _cache.run is a single call with no channel operation before the reply and replies exactly once with the value computed in that handler; stubs send one request with the caller's arguments; doList returns a freshly built slice with exactly the cached objects, keys distinct.",
 			notDecided:  []string{"'no data races the race detector can produce': dynamic; replaced by the static ownership obligation", "linearizability itself is the standard argument for a single-threaded server (trusted reasoning, not an SMT obligation)"},
-			assumptions: []string{"request/response pairing through the per-request buffered channel"},
+			assumptions: []string{"request/response pairing through the per-request buffered channel (that a reply is a well-formed snapshot / event batch / subscription is a channel invariant by element type, asserted at the actor's reply sends; that it is the reply to THIS request rests on the channel being created per request and sent once)"},
 		},
 		"C16": {
 			explanation: "monitor.run: OnInitialize is the first callback, happens at most once, with the list read after Ready was observed; afterwards exactly one callback per received event, of the matching kind and with the event's object; no callback after shutdown is initiated; no callback at all if Done fires before Ready; ShutdownCompleted is last. Typed layer: each adapter closure calls the typed callback of the same kind with the adapted object iff adaptation succeeded.",
 			notDecided:  []string{"'with the cache content AT readiness': the list is read after Ready is observed; equality with the content at that instant is a timing statement"},
-			assumptions: []string{"events carry one of the three types and a non-nil object (established by the producers; used as an assumption at the receive)"},
+			assumptions: []string{"none beyond the go-lifecycle contract: that received events carry one of the three types and a non-nil object is a channel invariant by element type, asserted at every send in /repo (structural obligation chaninv-coverage) and assumed at the receive"},
 		},
 		"C17": {
 			explanation: "Soundness: every Equals and FiltersEqual is proved against 'result => the two filters accept the same objects', with accept defined per filter type (C18/C19) and representations immutable (generated structural obligations). Completeness: every Equals, compareFilterList and FiltersEqual is also proved against 'built the same way => result' (relation bs, defined per filter type), and one lemma per constructor (Null, All, Not, And, Or, NSName, Selector, Labels, LabelSelector, NodeFilter, InvolvedFilter, SelectorMatchFilter) shows over the constructor's own postconditions that two calls with the same arguments give bs-related filters for which FiltersEqual returns true. Workload filters: a lemma shows that source lists with the same elements in any order give filters that accept the same objects.",
